@@ -117,10 +117,15 @@ def make_case(rng, F, P, T, D, pats, old, new, kind, via, values="random", dtype
                     else:
                         v = rng.gauss(0, 1) * scale          # also under the mask: garbage that must not leak
                     data[ci * D + d] = v
+    # confidences as whole numbers held in an INTEGER array (what bbox() and 0/1 presence flags give): observed stays observed
+    intconf = rng.random() < 0.2 and aff is None          # affine cases keep their fractional confidences
+    if intconf:
+        two = 2 if rng.random() < 0.3 else 1                  # mostly pure 0/1 presence flags
+        conf = [float(1 if v != 0 else 0) if (i % 5) else float(two if v != 0 else 0) for i, v in enumerate(conf)]
     if dtype == "f4":
         data = [float(np.float32(v)) for v in data]
         conf = [float(np.float32(v)) for v in conf]
-    case = {"F": F, "P": P, "T": T, "D": D, "fps": b64(old), "new": None if new is None else b64(new), "kind": kind,
+    case = {"F": F, "P": P, "T": T, "D": D, "intconf": bool(intconf), "fps": b64(old), "new": None if new is None else b64(new), "kind": kind,
             "via": via, "dtype": dtype, "data": [b64(v) for v in data], "conf": [b64(v) for v in conf]}
     if aff is not None:
         case["affine"] = aff
@@ -336,6 +341,8 @@ class C14(common.Prop):
         dt = np.float32 if case["dtype"] == "f4" else np.float64
         data = np.array([f64(w) for w in case["data"]], dtype=np.float64).reshape(F, P, T, D).astype(dt)
         conf = np.array([f64(w) for w in case["conf"]], dtype=np.float64).reshape(F, P, T).astype(dt)
+        if case.get("intconf"):
+            conf = conf.astype(np.int64 if (F + P + T) % 2 else np.int32)
         fps = f64(case["fps"])
         new = None if case["new"] is None else f64(case["new"])
         try:
